@@ -325,7 +325,15 @@ def main():
         else:
             ctx.cov["obligations"] = len(sum((theorems_in(os.path.join(LEAN, *m.split(".")) + ".lean") for m in mod.PROPS), []))
             ctx.cov["discharged"] = 0
-        mod.run(ctx, model_ok=ok)
+        try:
+            mod.run(ctx, model_ok=ok)
+        except Exception as e:  # the real code (or the harness on top of it) raised where the unchanged tree does not
+            tb = traceback.format_exc()
+            frames = [ln.strip() for ln in tb.splitlines() if ln.strip().startswith("File ")]
+            where = next((f for f in reversed(frames) if "/magpylib/" in f), frames[-1] if frames else "")
+            ctx.failing.append({"key": f"unexpected-exception:{type(e).__name__}",
+                                "desc": f"{type(e).__name__}: {str(e)[:200]} raised at {where[:160]} while the check exercised the real code",
+                                "replay": {"traceback_tail": tb[-1500:]}})
         sys.exit(finish(ctx))
     except SystemExit:
         raise
